@@ -68,6 +68,13 @@ impl FileSystem for Vfs {
                 fs.destroy();
             }
 
+            // The negotiation is void now. Forget what the client offered, so that a state
+            // saved from here on is restored as uninitialized (restore_from_bytes() derives
+            // `initialized` from `in_opts`) and accepts the next INIT.
+            let mut opts = *self.opts.load().deref().deref();
+            opts.in_opts = FsOptions::empty();
+            self.opts.store(Arc::new(opts));
+
             self.initialized.store(false, Ordering::Release);
         }
     }
